@@ -14,7 +14,7 @@ from pv.core import MachineSub, Sub, Violation, call, check, short
 
 ASSUMPTIONS = [
     'one series; observation dates are 40 consecutive days; values from {1.0, 2.0, 3.0, NaN}; stamps are whole days apart, probes sit 12h off or exactly on a stamp',
-    'the first value published for a date is never NaN (a NaN first publication is ambiguous: "published" row or not); NaN appears only after a value',
+    'a date whose publications so far are all NaN is present with NaN (bi_read docstring: what=0 is the "first actual value that was observed, even if nan"); a NaN never overrides an earlier value',
     're-merging is claimed for the version merged last, or for a version whose stamp no other version shares: re-merging an older of two same-stamp versions makes it '
     '"the one merged last", where the two clauses of the statement disagree',
     'the order of the returned index is not asserted (only the date -> value mapping)',
@@ -97,7 +97,7 @@ class Store(object):
             raise Violation('%s: %s; history %s' % (w, ('dates %s appear although first published after T (look-ahead)' % leak) if leak else ('dates %s published by T are missing' % lost), self._hist()))
         for i in exp:
             g, e = got[i], exp[i]
-            if not (g == e):
+            if not (g == e or (e is None and g != g)):
                 raise Violation('%s: observation %s reads %s, the publication log says %s; publications of that date (stamp, effective value) in merge order: %s'
                                 % (w, OBS0 + i * DAY, g, e, self.log[i]))
         if any(BASE + s * DAY > T for s, _ in self.versions) and exp:
@@ -117,15 +117,14 @@ class Store(object):
         if dense:
             for i in range(NDATES):
                 c.setdefault(i, [1.0, 2.0, 3.0][(i + len(self.versions)) % 3])
-        for i in list(c):
-            if c[i] is None and i not in self.log:
-                c[i] = 1.0                       # a first publication is never NaN (see ASSUMPTIONS)
         k = len(self.versions)
         self.versions.append((self.stamp, c))
         self._merge(k, 'bi_merge(store, version %i with stamp %i over %i dates)' % (k, self.stamp, len(c)))
         for i, v in c.items():
             entries = self.log.setdefault(i, [])
-            eff = entries[-1][1] if v is None else v
+            eff = (entries[-1][1] if entries else None) if v is None else v      # None = NaN: nothing but NaN published so far
+            if v is None and not entries:
+                self.flags.add('first_publication_is_nan')
             if entries:
                 if entries[-1][0] == self.stamp and entries[-1][1] != eff:
                     self.flags.add('same_stamp_different_value')
